@@ -276,6 +276,9 @@ def drive(case, monitors, learner_cls=None, step_limit=10 ** 7, wall_s=600, use_
                     hub.phase = "idle"
                     for m in monitors:
                         m.on_last(ctx, ctx.last)
+            except C.AmbiguousPoint:
+                ctx.stopped = "ambiguous point identity"
+                ctx.extra["ambiguous"] = True
             except C.StepBudgetExceeded as e:
                 ctx.crash = {"phase": phase, "round": ctx.round, "exc": "StepBudgetExceeded", "msg": str(e),
                              "site": None, "chain": [], "hang": True}
@@ -333,6 +336,10 @@ def result_of(ctx, monitors, owner_of_crashes=False, nontrivial=None, prefix=Non
         res["obs"]["max_steps_per_call"] = ctx.budget.max_seen
     if ctx.extra.get("inj"):
         res["obs"]["rng_outcomes_injected"] += ctx.extra["inj"]
+    if ctx.extra.get("ambiguous"):
+        res["obs"]["runs_stopped_ambiguous_point_identity"] += 1
+    if ctx.hub.value_resolved:
+        res["obs"]["points_resolved_by_value"] += ctx.hub.value_resolved
     res["obs"] = dict(res["obs"])
     res["nontrivial"] = bool(nontrivial(ctx, res) if nontrivial else ctx.round >= 10)
     return res
